@@ -43,7 +43,7 @@ CHECKS["C04"] = dict(
 CHECKS["C06"] = dict(
     engine="E1", category="model_checking", design="4/C06",
     technique="explicit-state exploration (fork-checkpointed DFS) with a differential oracle at every state: live aggregates vs fresh stores on the same storage (snapshot + later commands) vs a restarted instance on a forked copy with all snapshots deleted (replay from command 0)",
-    text="At every explored state (C01 alphabet plus real UpdateSnapshots runs, rejected commands, identity update, publisher removal) the serde view of every CertAuth, the TA proxy, the TA signer, the repository access aggregate and the repository content log as loaded by a fresh store equals the running instance's (masking exactly last_key_change / since), and an instance restarted on the log alone (snapshots removed) yields identical API views (CA info, configured ROAs, ASPA, BGPsec, child info, publisher files, repo stats); replay never fails or panics.",
+    text="At every explored state (C01 alphabet plus real UpdateSnapshots runs, rejected commands, identity update, publisher removal) (alphabet now with child suspension / re-activation) the serde view of every CertAuth, the TA proxy, the TA signer, the repository access aggregate and the repository content log as loaded by a fresh store equals the running instance's (masking exactly last_key_change / since), and an instance restarted on the log alone (snapshots removed) yields identical API views (CA info, configured ROAs, ASPA, BGPsec, child info, publisher files, repo stats); replay never fails or panics. Right after every snapshot run, the running instance and an instance restarted from the snapshots are each given every operation of the alphabet (on forked copies): both must reach the same canonical state (one-step bisimulation; this sees what the snapshot serialisation itself leaves out).",
     note=E1_NOTE)
 
 CHECKS["C05"] = dict(
@@ -55,7 +55,7 @@ CHECKS["C05"] = dict(
 CHECKS["C14"] = dict(
     engine="E1", category="model_checking", design="4/C14",
     technique="explicit-state exploration (fork-checkpointed DFS) with the virtual clock as an operation; maintenance runs (republish + renew) checked in two phases against undecoded-validity observations of every manifest, CRL and signed object",
-    text="Every sequence (up to the completed depth) of clock steps placed one second before / two seconds inside each re-issue margin (manifest/CRL and object expiry), one hour and (with parent refresh and TA renewal) long jumps, content changes, key-roll steps (staging and old key sets present) and maintenance runs, under 2 (3 thorough) timing configurations: every key set within the margin is re-issued by exactly one number and published, sets and objects not due are untouched (nothing due => repository byte-identical), objects within their re-issue margin get a new serial and later expiry, manifest number == CRL number and never decreases, windows contain the present, payloads unchanged, tree RP-valid after the run.",
+    text="Every sequence (up to the completed depth) of clock steps placed one second before / two seconds inside each re-issue margin (manifest/CRL and object expiry), one hour and (with parent refresh and TA renewal) long jumps, content changes, key-roll steps (staging and old key sets present) and maintenance runs, under 5 (7 thorough) configurations - among them three in which the harness decides the next-update jitter that krill draws at random by default (hook H8; alternately none / the maximum of four hours), two of them built in the middle of a key roll with the staging resp. old key's manifest and CRL coming due hours before the current key's: every key set within the margin is re-issued by exactly one number and published, sets and objects not due are untouched (nothing due => repository byte-identical), objects within their re-issue margin get a new serial and later expiry, manifest number == CRL number and never decreases, windows contain the present, payloads unchanged, tree RP-valid after the run.",
     note=E1_NOTE + " Krill's config validation forbids margin >= lifetime for manifests and ROAs, so 'equal/larger' margins cannot be configured for those; explored configurations are (24h/8h, 52w/4w), (2h/1h, 2w/1w), (3h/2h, 3w/2w).")
 
 CHECKS["C19"] = dict(
@@ -72,8 +72,8 @@ CHECKS["C17"] = dict(
 
 CHECKS["C12"] = dict(
     engine="E4", category="model_checking", design="4/C12",
-    technique="bounded-exhaustive enumeration of harness-signed CMS requests (signing key x claimed sender x recipient x addressed CA x request kind; sender substitution inside signed content; RFC 8181 key x publisher URL x kind) on forked copies of four states of the real CA and publication server, plus every single-bit corruption of valid messages sent to CaManager::rfc6492 / RepositoryManager::rfc8181",
-    text="Every request of the matrix (4 identity keys: alice's, bobby's, alice's replacement, an unregistered one; senders alice/bobby/unknown; recipients; addressed CA with and without children; list, issue, issue with a limit in the sibling's space, revoke own key, revoke the sibling's key; publication list/publish/update/withdraw inside and outside the own base URI) in states fresh / issued / alice's identity replaced / parent's identity rolled: answered only when signed by the key registered for the claimed sender (the replaced key is refused, the new one accepted); refused => the complete canonical state and the published content are unchanged; answered => reply validates under the server side's current identity key, is addressed to the sender, lists/issues only within the sender's entitlement, never changes the sibling's certificate or objects outside the sender's base URI. Every single-bit corruption of valid list/issue/revoke/publication messages is refused without stored-state change, or decodes to the identical content.",
+    technique="bounded-exhaustive enumeration of harness-signed CMS requests (signing key x claimed sender x recipient x addressed CA x request kind; sender substitution inside signed content; RFC 8181 key x publisher URL x kind) on forked copies of five states of the real CA and publication server, plus every single-bit corruption of valid messages sent to CaManager::rfc6492 / RepositoryManager::rfc8181",
+    text="Every request of the matrix (4 identity keys: alice's, bobby's, alice's replacement, an unregistered one; senders alice/bobby/unknown; recipients; addressed CA with and without children; list, issue, issue with a limit in the sibling's space, revoke own key, revoke the sibling's key; publication list/publish/update/withdraw inside and outside the own base URI) in states fresh / issued / alice's identity replaced / parent's identity rolled / alice suspended (where a properly signed request re-activates her, and nothing else may): answered only when signed by the key registered for the claimed sender (the replaced key is refused, the new one accepted); refused => the complete canonical state and the published content are unchanged; answered => reply validates under the server side's current identity key, is addressed to the sender, lists/issues only within the sender's entitlement, never changes the sibling's certificate or objects outside the sender's base URI. Every single-bit corruption of valid list/issue/revoke/publication messages is refused without stored-state change, or decodes to the identical content.",
     note="CMS signing time is 'now' on the frozen clock (expiry not varied). A wrong recipient handle in an otherwise valid message is not a refusal condition of the property. Properly signed requests refused on semantic grounds may leave a failure record in the status store (C19 demands it). Replay: kcheck C12 --replay <file>.")
 
 CHECKS["C16"] = dict(
@@ -103,7 +103,7 @@ CHECKS["C15"] = dict(
 CHECKS["C08"] = dict(
     engine="E3", category="model_checking", design="4/C08",
     technique="exhaustive fault enumeration: for every scenario (state, operation) the sequence of key-value and file-system mutations performed by the operation and by the background tasks it triggers is recorded on the real code (fault points, hook H3); then every prefix is cut, once as a process crash before the n-th mutation and once as that mutation failing with an I/O error, and the survivor (a fresh instance on the surviving data directory / the still-running instance) is checked and compared with a fault-free twin run",
-    text="Scenarios: ROA added (warm caches; cold caches right after a restart; right after another command without any read in between), ROA removed, ASPA set, router key added, child entitlement shrunk, entitlement grown on cold caches, key roll initiated, key roll activated, key roll initiated under a rolling parent, re-publication a day later, identity key renewed (quick: the first six). For every mutation index and both cut kinds: every entity loads; the repository files are consistent; an acknowledged command is not lost; the running instance holds in memory exactly what a fresh instance replays from storage; after background tasks, re-submission of the interrupted request and settling the tree is relying-party valid and the observable state equals that of the fault-free run.",
+    text="Scenarios: ROA added (warm caches; cold caches right after a restart; right after another command without any read in between), ROA removed, ASPA set, router key added, child entitlement shrunk, entitlement grown on cold caches, key roll initiated, key roll activated, key roll initiated under a rolling parent, re-publication a day later, identity key renewed (quick: the first six). For every mutation index and both cut kinds: every entity loads; the repository files are consistent; on a copy, once background work and its retries (an hour later) have run and before any new request, RRDP files, rsync tree and repository content agree; an acknowledged command is not lost; the running instance holds in memory exactly what a fresh instance replays from storage; after background tasks, re-submission of the interrupted request and settling the tree is relying-party valid and the observable state equals that of the fault-free run.",
     note="Torn writes inside one mutation are not modelled (values are written to a temporary file and renamed). Equality with the twin is on an observable projection (configuration, entitlements, key-state kinds, relying-party payloads); fresh keys, serials and class names are not compared. When the daemon gives up on purpose (task queue cannot be written) the Fail-mode cut is continued as a restart. Two defects found here are recorded as known findings (listener/command store not atomic; RRDP update task not queued), one was repaired.")
 
 CHECKS["C07"] = dict(
@@ -126,7 +126,7 @@ CHECKS["C10"] = dict(
 CHECKS["C11"] = dict(
     engine="E1+E3", category="model_checking", design="4/C11",
     technique="explicit-state exploration (fork-checkpointed DFS) of publication histories with a simulated RRDP client that remembers every serial it has seen, under several retention configurations; plus enumeration of every file-system cut point of a repository write (fault points) with recovery by the next write",
-    text="Every publication history (up to the completed depth) with RRDP updates, session resets and clock steps under retention configurations (tight 1/2, dense young-delta, min=max, thorough: test, default+archive, dense archive): after every step the notification parses and names an existing snapshot and deltas with the stated hashes, the snapshot equals the publication state at its serial, serials step by one, the session changes only on reset (serial 1, no deltas), deltas form a contiguous run ending at the serial and respect the documented maximum, a client at any remembered serial reaches the snapshot through the advertised chain, and rsync/current equals the snapshot. Fault part: every cut (crash and single failing write) of the file-system mutation sequence of an update, followed by the next successful write.",
+    text="Every publication history (up to the completed depth) with RRDP updates, session resets and clock steps under retention configurations (tight 1/2, dense young-delta, min=max, thorough: test, default+archive, dense archive): after every step the notification parses and names an existing snapshot and deltas with the stated hashes, the snapshot equals the publication state at its serial, serials step by one, the session changes only on reset (serial 1, no deltas), deltas form a contiguous run ending at the serial and respect the documented maximum, a client at any remembered serial reaches the snapshot through the advertised chain, and rsync/current equals the snapshot. Fault part: every cut (crash and single failing write) of the file-system mutation sequence of an update or session reset; then first a plain retry of the same write with nothing new to publish (it must succeed and leave RRDP files, rsync tree and - for an update - the server's content in agreement), then a withdrawal, two publications and a withdrawal with session reset, each with a successful write and a consistent result.",
     note=E1_NOTE + " The delta cap follows the documented precedence (min_nr previous deltas plus the new one and all deltas younger than min_seconds are always kept). Cuts are process deaths between mutations, not torn sectors.")
 
 NOT_YET = {
